@@ -177,8 +177,9 @@ class Session:
     """One real writer driven by a worker thread: connect(); write(s_0) … write(s_{n-1});
     [disconnect(wait=True)].  Every observable event goes into `self.ev` (list append = total order)."""
 
-    def __init__(self, kind: str, stmts: list, disc: bool):
-        self.kind, self.disc = kind, disc
+    def __init__(self, kind: str, stmts: list, disc: bool, gated: bool = False):
+        self.kind, self.disc, self.gated = kind, disc, gated
+        self.gate = threading.Semaphore(0)  # gated caller: one permit per write() / disconnect() call
         self.stmts = [s if isinstance(s, bytes) else s.encode() for s in stmts]
         self.stmt_index = {}
         for k, s in enumerate(self.stmts):
@@ -196,6 +197,7 @@ class Session:
         self.auto = None  # callable(line) -> list[bytes] for an instantly answering device
         self._patches = []
         self.t0 = time.time()
+        self._stopping = False
 
     # ---- life cycle
     def start(self, run_worker=True):
@@ -250,6 +252,10 @@ class Session:
 
     def do_writes(self):
         for k, s in enumerate(self.stmts):
+            if self.gated:
+                self.gate.acquire()
+                if self._stopping:
+                    return
             self.ev.append(("call", k))
             try:
                 self.writer.write(s)
@@ -258,6 +264,10 @@ class Session:
                 self.ev.append(("ret", k, type(e).__name__))
 
     def do_disconnect(self):
+        if self.gated:
+            self.gate.acquire()
+            if self._stopping:
+                return
         self.ev.append(("disc-call",))
         try:
             self.writer.disconnect(True)
@@ -287,19 +297,33 @@ class Session:
         self.consumed += 1
         self.ev.append(("consume", owner))
         for j, (text, errorish) in enumerate(lines):
-            self.pending.append((owner, text, j == len(lines) - 1, errorish))
+            self.pending.append((owner, text, j == len(lines) - 1, errorish, "r"))
         return True
 
     def release(self) -> bool:
         if self.lost or not self.pending:
             return False
-        owner, text, terminal, errorish = self.pending.pop(0)
-        self.ev.append(("rel", owner, text, terminal, errorish))
+        owner, text, terminal, errorish, kind = self.pending.pop(0)
+        self.ev.append(("rel", owner, text, terminal, errorish, kind))
         data = (text + "\n").encode()
         if self.kind == "socket":
             self.tcp.put(data)
         else:
             self.io().rxq.put(data)
+        return True
+
+    def permit(self) -> bool:
+        """the gated caller may start its next call"""
+        if not self.gated:
+            return False
+        self.gate.release()
+        return True
+
+    def push(self, text: str, errorish: bool) -> bool:
+        """The device emits a line that is nobody's terminal reply (surplus ok / unsolicited error line)."""
+        if self.lost:
+            return False
+        self.pending.append((None, text, False, errorish, "x"))
         return True
 
     def lose(self) -> bool:
@@ -357,6 +381,9 @@ class Session:
 
     # ---- teardown (must leave no printcore thread behind)
     def cleanup(self):
+        self._stopping = True
+        for _ in range(len(self.stmts) + 2):
+            self.gate.release()
         io = self.io()
         if io is not None:
             io.free_run = True
